@@ -15,6 +15,10 @@ EXTENDS LogixOps
 
 \* members of a request: itself, or the members of a bundle
 Members(r) == IF r.svc = "multi" THEN r.ms ELSE <<r>>
+\* Connected messaging: a session may open (Forward Open) and close (Forward Close) connections, named by the connection
+\* serial IT chose -- two sessions may well choose the same serial -- and send requests over them.  The connection table is
+\* shared state like the tags; a session's connections are its own: nothing another session does opens or closes them.
+IsConn(r) == r.svc \in {"fwdopen", "fwdclose"}
 
 CONSTANTS CC,        \* configuration (tags, budget)
           Mem0,      \* initial memory
@@ -23,25 +27,32 @@ VARIABLES cmem,      \* shared tag memory
           pc,        \* pc[s] = index of the request session s is working on (Len+1 = finished)
           phase,     \* phase[s] \in {"idle", "busy"}
           done,      \* done[s] = members of the current request that have taken effect
-          got        \* got[s] = outcomes of those members
-cvars == <<cmem, pc, phase, done, got>>
+          got,       \* got[s] = outcomes of those members
+          ctab       \* open connections: pairs <<session, connection serial>>
+cvars == <<cmem, pc, phase, done, got, ctab>>
 Sessions == DOMAIN Ops
 
 CInit == /\ cmem = Mem0 /\ pc = [s \in Sessions |-> 1] /\ phase = [s \in Sessions |-> "idle"]
-         /\ done = [s \in Sessions |-> 0] /\ got = [s \in Sessions |-> <<>>]
+         /\ done = [s \in Sessions |-> 0] /\ got = [s \in Sessions |-> <<>>] /\ ctab = {}
 Invoke(s) == /\ phase[s] = "idle" /\ pc[s] <= Len(Ops[s])
              /\ phase' = [phase EXCEPT ![s] = "busy"] /\ done' = [done EXCEPT ![s] = 0] /\ got' = [got EXCEPT ![s] = <<>>]
-             /\ UNCHANGED <<cmem, pc>>
+             /\ UNCHANGED <<cmem, pc, ctab>>
 Effect(s) == /\ phase[s] = "busy"
              /\ LET ms == Members(Ops[s][pc[s]]) IN
                 /\ done[s] < Len(ms)
-                /\ \E o \in SingleOuts(CC, cmem, ms[done[s] + 1]) :
-                      /\ cmem' = o.mem /\ got' = [got EXCEPT ![s] = Append(@, o)]
+                /\ IF IsConn(ms[done[s] + 1])
+                   THEN /\ ctab' = IF ms[done[s] + 1].svc = "fwdopen" THEN ctab \cup { <<s, ms[done[s] + 1].fo.serial>> }
+                                   ELSE ctab \ { <<s, ms[done[s] + 1].fo.serial>> }
+                        /\ got' = [got EXCEPT ![s] = Append(@, [k |-> "conn", st |-> 0, ext |-> <<>>, data |-> <<>>, mem |-> cmem])]
+                        /\ UNCHANGED cmem
+                   ELSE /\ \E o \in SingleOuts(CC, cmem, ms[done[s] + 1]) :
+                              /\ cmem' = o.mem /\ got' = [got EXCEPT ![s] = Append(@, o)]
+                        /\ UNCHANGED ctab
                 /\ done' = [done EXCEPT ![s] = @ + 1]
              /\ UNCHANGED <<pc, phase>>
 Respond(s) == /\ phase[s] = "busy" /\ done[s] = Len(Members(Ops[s][pc[s]]))
               /\ phase' = [phase EXCEPT ![s] = "idle"] /\ pc' = [pc EXCEPT ![s] = @ + 1]
-              /\ UNCHANGED <<cmem, done, got>>
+              /\ UNCHANGED <<cmem, done, got, ctab>>
 CNext == \E s \in Sessions : Invoke(s) \/ Effect(s) \/ Respond(s)
 CSpec == CInit /\ [][CNext]_cvars /\ WF_cvars(CNext)
 
@@ -49,5 +60,7 @@ CSpec == CInit /\ [][CNext]_cvars /\ WF_cvars(CNext)
 \* a write to elements only one session writes is never lost: checked through the final memory in MC_Concurrency
 AllDone == \A s \in Sessions : pc[s] = Len(Ops[s]) + 1
 Terminates == <>AllDone
+\* C09 isolation: a session's connections are opened and closed by its own requests only
+OwnConnections == [][ \A s \in Sessions : { c \in ctab : c[1] = s } # { c \in ctab' : c[1] = s } => (phase[s] = "busy" /\ done'[s] = done[s] + 1) ]_cvars
 TagsWellFormed == \A t \in 1 .. Len(CC.tags) : Len(cmem[t]) = CC.tags[t].len
 =============================================================================
